@@ -11,6 +11,19 @@ from . import progfuzz as PF
 from . import c01
 
 
+def f26_like(c, o):
+    """the signature of known finding F26 in a generated program: every difference is a use of a *checked* result
+    (model: result site -> X) that the real analysis treats as unchecked (`lacking guarding` -> X), in a program with a
+    loop"""
+    mo, ro = o["model_trig"] - o["real_trig"], o["real_trig"] - o["model_trig"]
+    if not mo or o["odd"] or "'while'" not in repr([fd["body"] for fd in c.prog["funcs"]]):
+        return False
+    if not all(isinstance(t[0], tuple) and t[0][0] == "result" and t[2] is None and ("nil", t[1], None) in o["real_trig"] for t in mo):
+        return False
+    xs = {t[1] for t in mo}
+    return all(t[0] == "nil" and t[1] in xs and t[2] is None for t in ro)
+
+
 def run(ctx):
     ok, msg = ctx.build_tools()
     if not ok:
@@ -20,6 +33,21 @@ def run(ctx):
         return
     ctx.regen("all")
     okp, log = ctx.prove("props/C08.v", "C08")
+    # known finding F26: reproduce it from the corpus (and its control)
+    from . import progcorpus as PC
+    corpus = PC.c08_cases()
+    rc = PF.run_suite(ctx, corpus, nb=4)
+    ctx.obligation("corpus (known finding F26 and its control) ran", "error" not in rc)
+    if "error" not in rc:
+        o, oc = rc["obs"]["kf26loop"], rc["obs"]["kf26ctl"]
+        if o["reports"] == {1} and not o["panics"] and not o["flagged"]:
+            if any(k["id"] == "F26" for k in ctx.known_for()):
+                ctx.known_finding("F26", "%s (corpus program kf26loop)" % [k["what"] for k in ctx.known_for() if k["id"] == "F26"][0][:200])
+            else:
+                ctx.violation("corpus-kf26loop", "C08 fails: a checked use of a result of a convention-respecting callee is reported\n" + PF.describe(corpus[0], o))
+        ctx.obligation("control of the corpus (the same check and use without the loop) is clean and its triggers are the model's", not oc["reports"] and oc["real_trig"] == oc["model_trig"])
+    f26_active = any(k["id"] == "F26" for k in ctx.known_for()) and "error" not in rc and rc["obs"]["kf26loop"]["reports"] == {1}
+    nf26 = 0
     rng = random.Random(ctx.seed * 86028121 + 8)
     n = 400 if ctx.tier == "quick" else 6000
     batch = 400 if ctx.tier == "quick" else 1000
@@ -35,7 +63,11 @@ def run(ctx):
             return
         for c in cases:
             o = r["obs"][c.name]
+            like26 = f26_active and f26_like(c, o)
+            nf26 += bool(like26)
             for (kind, m, found) in c01.classify(c, o, {"F2", "F4"}):
+                if like26 and kind in ("corr-trig", "corr-diag"):
+                    continue      # the real analysis is more conservative here: known finding F26
                 kinds.setdefault(kind, []).append((m, c, o))
         allc += cases
         allo.update(r["obs"])
@@ -48,6 +80,7 @@ def run(ctx):
     ctx.obligation("oracle on the real tool: with one unprotected dereference no other place is reported", "lone" not in kinds)
     st = PF.stats(allc, allo)
     st["always_nil_dereference_triggers"] = nguard
+    st["programs_with_the_signature_of_F26"] = nf26
     st["programs_with_direct_forwarding"] = sum(1 for c in allc if "'retcall'" in repr(c.prog["funcs"]))
     st["programs_with_ok_form"] = sum(1 for c in allc if any(fd.get("okform") for fd in c.prog["funcs"]))
     st["programs_with_named_results"] = sum(1 for c in allc if any(fd.get("named") for fd in c.prog["funcs"]))
